@@ -128,6 +128,9 @@ async fn on_flush(
     let capacity = ctx.memtable.capacity();
     let segment_id = ctx.allocator.next_for_level(0) as u64;
 
+    #[cfg(sneldb_verif)]
+    crate::verif::step("flush.manual_rotated", &format!("\"shard\":{},\"seg\":{segment_id},\"eids\":[{}]", ctx.id,
+        ctx.memtable.iter().map(|e| format!("\"{}\"", e.event_id().raw())).collect::<Vec<_>>().join(",")));
     // Move current memtable to a new passive buffer
     let passive = ctx.passive_buffers.add_from(&ctx.memtable).await;
     let flushed_mem = std::mem::replace(&mut ctx.memtable, MemTable::new(capacity));
